@@ -142,6 +142,10 @@ pub fn check_files(files: &[SrcFile], st: &mut Stats) -> Result<(), String> {
     if !model.pending.is_empty() {
         st.class("external-pending");
     }
+    // an external label whose definition sits at address 0 (the placeholder address of external labels)
+    if files.iter().any(|f| f.model.labels.iter().any(|(n, i)| i.external && files.iter().any(|g| g.model.labels.get(n).is_some_and(|d| !d.external && d.addr == 0)))) {
+        st.class("external-defined-at-address-0");
+    }
     if files.iter().any(|f| {
         // a use that precedes its .external declaration
         let mut declared: BTreeSet<String> = BTreeSet::new();
@@ -210,7 +214,7 @@ pub fn run(ctx: &Ctx) -> Outcome {
     let cfg = TapeCfg::new(ctx, 1500, 40_000, 1500);
     out.shards = cfg.shards;
     out.absorb(tape_search(ctx, "main", &cfg, check, describe));
-    out.essential = ["files:2", "files:3", "files:4", "link-should-succeed", "link-should-fail", "external-resolved", "external-pending", "use-before-declaration"].iter().map(|s| s.to_string()).collect();
+    out.essential = ["files:2", "files:3", "files:4", "link-should-succeed", "link-should-fail", "external-resolved", "external-pending", "use-before-declaration", "external-defined-at-address-0"].iter().map(|s| s.to_string()).collect();
     out
 }
 
